@@ -52,7 +52,9 @@ Definition okind_eqb (a b : option kind) : bool :=
   end.
 
 (* element sizes of the two harness traits, header size and page size of _mpt_buffer_alloc *)
-Record env := mkenv { eszA : nat; eszB : nat; ehdr : nat; epage : nat }.
+(* [ecopyfail]: the copy constructor of the element type refuses every source (library type
+   "command" whose source elements carry a handler, kind A only); default construction still works *)
+Record env := mkenv { eszA : nat; eszB : nat; ehdr : nat; epage : nat; ecopyfail : bool }.
 Definition esz (e : env) (k : kind) : nat := match k with KA => eszA e | KB => eszB e end.
 
 Record ctx := mkctx { cnext : nat; cscript : list bool; clog : list event }.
@@ -108,8 +110,9 @@ Definition construct_at (sz bsz off : nat) (src : option slot) (sl : list slot) 
   else Fault.
 
 (* traits->init(ptr + off, src): consumes one script entry; false = refused, target untouched *)
-Definition init_at (sz bsz off : nat) (src : option slot) (sl : list slot) (c : ctx)
+Definition init_at (cf : bool) (sz bsz off : nat) (src : option slot) (sl : list slot) (c : ctx)
   : res (list slot * ctx * bool) :=
+  if cf && match src with Some _ => true | None => false end then Ok (sl, c, false) else
   match cscript c with
   | false :: r => Ok (sl, mkctx (cnext c) r (clog c), false)
   | true :: r =>
@@ -137,14 +140,14 @@ Fixpoint gap_loop (fuel sz bsz off lim : nat) (sl : list slot) (c : ctx)
     match fuel with
     | 0 => Fault
     | S f =>
-      do '(sl', c', ok) <- init_at sz bsz off None sl c;
+      do '(sl', c', ok) <- init_at false sz bsz off None sl c;
       if ok then gap_loop f sz bsz (off + sz) lim sl' c' else Ok (sl', c', off, false)
     end
   else Ok (sl, c, off, true).
 
 (* the copy loop of mpt_buffer_set: [k] indexes the source elements.
    result: count, and [Some pos] when copy AND default construction failed at pos *)
-Fixpoint copy_loop (fuel sz bsz pos lim k : nat) (src : option (list slot)) (count : nat)
+Fixpoint copy_loop (cf : bool) (fuel sz bsz pos lim k : nat) (src : option (list slot)) (count : nat)
   (sl : list slot) (c : ctx) : res (list slot * ctx * nat * option nat) :=
   if pos <? lim then
     match fuel with
@@ -156,13 +159,13 @@ Fixpoint copy_loop (fuel sz bsz pos lim k : nat) (src : option (list slot)) (cou
         | Some s =>
           match nth_error s k with
           | None => Fault                    (* source read past the source array *)
-          | Some x => init_at sz bsz pos (Some x) sl c
+          | Some x => init_at cf sz bsz pos (Some x) sl c
           end
         end;
-      if copied then copy_loop f sz bsz (pos + sz) lim (S k) src (S count) sl1 c1
+      if copied then copy_loop cf f sz bsz (pos + sz) lim (S k) src (S count) sl1 c1
       else
-        do '(sl2, c2, ok) <- init_at sz bsz pos None sl1 c1;
-        if ok then copy_loop f sz bsz (pos + sz) lim (S k) src count sl2 c2
+        do '(sl2, c2, ok) <- init_at false sz bsz pos None sl1 c1;
+        if ok then copy_loop cf f sz bsz (pos + sz) lim (S k) src count sl2 c2
         else Ok (sl2, c2, count, Some pos)
     end
   else Ok (sl, c, count, None).
@@ -221,7 +224,7 @@ Definition buffer_set (e : env) (b : buf) (st : option kind) (pos : nat) (src : 
       do '(sl2, c2, off, ok) <- gap_loop (S pos) elem bsz used pos sl1 c1;
       if negb ok then Ok (with_used (with_slots b sl2) off, c2, RErr BadOperation) else
       (* prepare target and copy data *)
-      do '(sl3, c3, count, failed) <- copy_loop (S end_) elem bsz pos end_ 0 src 0 sl2 c2;
+      do '(sl3, c3, count, failed) <- copy_loop (ecopyfail e && kind_eqb k KA) (S end_) elem bsz pos end_ 0 src 0 sl2 c2;
       match failed with
       | Some p =>
         (* invalidate remaining data as result of fatal error *)
@@ -368,7 +371,9 @@ Definition detach (e : env) (w : world) (id : nat) (len0 : nat) : res (world * o
         do '(nb', c', rv) <- buffer_set e nb tr 0 (Some (bslots b)) add (wctx w2);
         match rv with
         | RErr _ =>
-          do w3 <- unref e (hput w2 nid (Some nb') c') nid; Ok (w3, None)
+          (* caller keeps its reference to the unchanged buffer *)
+          do w3 <- unref e (hput w2 nid (Some nb') c') nid;
+          do w4 <- addref w3 id; Ok (w4, None)
         | RCount _ => Ok (hput w2 nid (Some nb') c', Some nid)
         end
       else
@@ -638,31 +643,68 @@ Fixpoint drop_sources (s : list slot) (c : ctx) : ctx :=
   | [] => c
   end.
 
+(* ---- operations on the one buffer of a handle, as the harness drives them ---- *)
+
+(* mpt_buffer_set with ceil(len/size) source elements built and destroyed by the caller *)
+Definition do_set (e : env) (tr : option kind) (pos len : nat) (withsrc : bool) (b : buf) (c : ctx)
+  : res (buf * ctx * out) :=
+  let n := match tr with Some k => (len + esz e k - 1) / esz e k | None => 0 end in
+  let '(srcs, c0) := if withsrc then make_sources n c else ([], c) in
+  do '(b', c', rv) <- buffer_set e b tr pos (if withsrc then Some srcs else None) len c0;
+  Ok (b', drop_sources srcs c', out_of_ret rv).
+
+(* mpt_buffer_insert, then the caller constructs the inserted elements *)
+Definition do_insert (e : env) (pos len : nat) (b : buf) (c : ctx) : res (buf * ctx * out) :=
+  do '(b', c', ok) <- buffer_insert e b pos len c;
+  if ok then
+    match btr b' with
+    | Some k =>
+      do '(sl, c2) <- construct_loop (S (pos + len)) (esz e k) (bsize b') pos (pos + len) (bslots b') c';
+      Ok (with_slots b' sl, c2, OOk)
+    | None => Ok (b', c', OOk)
+    end
+  else Ok (b', c', ORefused).
+
+Definition do_cut (e : env) (off len : nat) (b : buf) (c : ctx) : res (buf * ctx * out) :=
+  do '(b', c', rv) <- buffer_cut e b off len c; Ok (b', c', out_of_ret rv).
+
+Definition do_trim (e : env) (len : nat) (b : buf) (c : ctx) : res (buf * ctx * out) :=
+  do '(b', c', ok) <- cxx_trim e b len c; Ok (b', c', bool_out ok).
+
+Definition do_skip (e : env) (len : nat) (b : buf) (c : ctx) : res (buf * ctx * out) :=
+  do '(b', c', ok) <- cxx_skip e b len c; Ok (b', c', bool_out ok).
+
+(* buffer::append, then the caller constructs the appended elements *)
+Definition do_append (e : env) (len : nat) (b : buf) (c : ctx) : res (buf * ctx * out) :=
+  let '(b', ok) := cxx_append e b len in
+  if ok then
+    match btr b' with
+    | Some k =>
+      do '(sl, c2) <- construct_loop (S (bused b')) (esz e k) (bsize b') (bused b) (bused b') (bslots b') c;
+      Ok (with_slots b' sl, c2, OOk)
+    | None => Ok (b', c, OOk)
+    end
+  else Ok (b, c, ORefused).
+
+(* content<T>::set_length(len) with set = len * sizeof(T) *)
+Definition do_setlen (e : env) (set : nat) (b : buf) (c : ctx) : res (buf * ctx * out) :=
+  if set =? bused b then Ok (b, c, OOk) else
+  if set <? bused b then
+    do '(b', c', ok) <- cxx_trim e b (bused b - set) c; Ok (b', c', bool_out ok)
+  else
+    do '(b', c', ok) <- buffer_insert e b set 0 c; Ok (b', c', bool_out ok).
+
+(* run a one-buffer operation on the buffer of handle h *)
+Definition on_local (w : world) (h : nat) (f : buf -> ctx -> res (buf * ctx * out)) : res (world * out) :=
+  on_buf w h (fun id b => do '(b', c', o) <- f b (wctx w); Ok (hput w id (Some b') c', o)).
+
 Definition step_op (e : env) (w : world) (o : op) : res (world * out) :=
   match o with
   | OpNew h tr len imm ncp => op_new e w h tr len imm ncp
   | OpReserve h tr len => array_reserve e w h len tr
-  | OpSet h tr pos len withsrc =>
-    on_buf w h (fun id b =>
-      let n := match tr with Some k => (len + esz e k - 1) / esz e k | None => 0 end in
-      let '(srcs, c0) := if withsrc then make_sources n (wctx w) else ([], wctx w) in
-      do '(b', c', rv) <- buffer_set e b tr pos (if withsrc then Some srcs else None) len c0;
-      Ok (hput w id (Some b') (drop_sources srcs c'), out_of_ret rv))
-  | OpInsert h pos len =>
-    on_buf w h (fun id b =>
-      do '(b', c', ok) <- buffer_insert e b pos len (wctx w);
-      if ok then
-        match btr b' with
-        | Some k =>
-          do '(sl, c2) <- construct_loop (S (pos + len)) (esz e k) (bsize b') pos (pos + len) (bslots b') c';
-          Ok (hput w id (Some (with_slots b' sl)) c2, OOk)
-        | None => Ok (hput w id (Some b') c', OOk)
-        end
-      else Ok (hput w id (Some b') c', ORefused))
-  | OpCut h off len =>
-    on_buf w h (fun id b =>
-      do '(b', c', rv) <- buffer_cut e b off len (wctx w);
-      Ok (hput w id (Some b') c', out_of_ret rv))
+  | OpSet h tr pos len withsrc => on_local w h (do_set e tr pos len withsrc)
+  | OpInsert h pos len => on_local w h (do_insert e pos len)
+  | OpCut h off len => on_local w h (do_cut e off len)
   | OpDetach h len =>
     on_buf w h (fun id b =>
       do '(w', r) <- detach e w id len;
@@ -674,32 +716,10 @@ Definition step_op (e : env) (w : world) (o : op) : res (world * out) :=
     (* the harness does not pass an empty source array (NULL dereference in mpt_array_clone) *)
     match handle w g with None => Ok (w, OSkip) | Some _ => array_clone e w h (Some g) end
   | OpRelease h => array_clone e w h None
-  | OpTrim h len =>
-    on_buf w h (fun id b =>
-      do '(b', c', ok) <- cxx_trim e b len (wctx w); Ok (hput w id (Some b') c', bool_out ok))
-  | OpSkip h len =>
-    on_buf w h (fun id b =>
-      do '(b', c', ok) <- cxx_skip e b len (wctx w); Ok (hput w id (Some b') c', bool_out ok))
-  | OpAppend h len =>
-    on_buf w h (fun id b =>
-      let '(b', ok) := cxx_append e b len in
-      if ok then
-        match btr b' with
-        | Some k =>
-          do '(sl, c2) <- construct_loop (S (bused b')) (esz e k) (bsize b') (bused b) (bused b') (bslots b') (wctx w);
-          Ok (hput w id (Some (with_slots b' sl)) c2, OOk)
-        | None => Ok (hput w id (Some b') (wctx w), OOk)
-        end
-      else Ok (w, ORefused))
-  | OpSetLen h set =>
-    (* content<T>::set_length(len) with set = len * sizeof(T) *)
-    on_buf w h (fun id b =>
-      if set =? bused b then Ok (w, OOk) else
-      if set <? bused b then
-        do '(b', c', ok) <- cxx_trim e b (bused b - set) (wctx w); Ok (hput w id (Some b') c', bool_out ok)
-      else
-        do '(b', c', ok) <- buffer_insert e b set 0 (wctx w);
-        Ok (hput w id (Some b') c', bool_out ok))
+  | OpTrim h len => on_local w h (do_trim e len)
+  | OpSkip h len => on_local w h (do_skip e len)
+  | OpAppend h len => on_local w h (do_append e len)
+  | OpSetLen h set => on_local w h (do_setlen e set)
   | OpCopy h g =>
     on_buf w h (fun id b =>
       on_buf w g (fun gid gb =>
